@@ -663,7 +663,7 @@ def c15(tier, rep):
         runs = [(["c15", "std", 5, "join,try_join"], "21 symbols, length<=5, join/try_join"), (["c15", "full", 3, ALL8], "32 symbols (all operators, and_then, tuple let), length<=3, 8 configs"), (["c15", "opts", 6, "join,try_join_async"], "4 options + x |> , then, length<=6")]
     else:
         runs = [(["c15", "std", 6, "join,try_join"], "21 symbols, length<=6, join/try_join"), (["c15", "full", 4, ALL8], "32 symbols, length<=4, 8 configs"), (["c15", "opts", 8, "join,try_join_async"], "4 options + x |> , then, length<=8")]
-    runs.append((["c15", "lets", ALL8], "depth profiles n<=3,d<=3 x every assignment of {none, let, let mut, let ref} to the branches x handler x 8 configs"))
+    runs.append((["c15", "lets", ALL8], "depth profiles n<=3,d<=3 x every assignment of {none, let, let mut, let ref, let r#keyword, let mut r#keyword} to the branches x handler x 8 configs"))
     runs.append((["c15", "mid", ALL8], "every operator (plain, ~, wrapper opener, <<<) in front of each separating comma of ^@ / ?^@ / typed <-> x 4 continuations x 8 configs: rejected"))
     classes = {}
     for args, label in runs:
@@ -993,7 +993,7 @@ def c17(tier, rep):
     np_ = fn.nesting_programs(tier)
     fr2 = e2.run_family("c17nest", np_, extra_header=fn.NEST_HEADER)
     judge_family(rep, fr2)
-    sp = fn.sibling_programs(tier) + fn.handler_operand_nesting()
+    sp = fn.sibling_programs(tier) + fn.handler_operand_nesting() + fn.hostile_scope_programs()
     fr3 = e2.run_family("c17siblings", sp, extra_header=fn.NEST_HEADER)
     judge_family(rep, fr3)
     n3 = fn.nesting3_programs(tier)
@@ -1004,7 +1004,7 @@ def c17(tier, rep):
     # on the caller
     run_threads(rep, tier, "c17", "nested thread-spawning macros")
     rep.set("distinct_nontrivial", len(dp) + len(np_) + len(sp) + len(n3))
-    rep.set("rule", "(c) sibling independence: the same deep capture-rich try branch alone and next to 1, 2, 11 shallow / equally deep / deeper siblings at every side, every subset of its steps failing — value and trace equal the reference; (a) dense programs: B branches x A actions per step x 2 steps with a block capture carrying a distinct constant on EVERY action for (B, A) over {2,11,12}^2 (thorough: + 24), 13-step branches (__sr10..__sr12), 13 and 24 branches in the thread-spawning kinds (__j10 vs __j1), fold/try_fold captures with operand index 0 and 1 in 12 branches — any clash of generated names makes a binding shadow another and changes a constant / the trace; (b) nesting: EVERY ordered pair of the 12 macros with the inner macro as operand value, inside a block capture and inside a handler (async inner in sync context through a nesting-free block_on, task-spawning inner inside a tokio runtime context); (b3) depth 3: every ordered TRIPLE of the 12 macros, innermost inside the initial operand / a block capture of the middle macro, middle inside an operand / capture / handler of the outer (quick: position pair (capture, operand) for all 1728 triples + all six position pairs over 4 representative middle/inner macros; thorough: all triples x all six pairs; triples in which a tokio task would be spawned from a plain std thread are not programs); oracle: value + trace (per-branch projections) equal the reference applied recursively; every program is distinct and non-trivial by construction (distinct constants, logging callbacks)")
+    rep.set("rule", "(d) hostile scope: every macro invoked where the caller's scope has its own items named std / core / alloc / tokio / futures; (c) sibling independence: the same deep capture-rich try branch alone and next to 1, 2, 11 shallow / equally deep / deeper siblings at every side, every subset of its steps failing — value and trace equal the reference; (a) dense programs: B branches x A actions per step x 2 steps with a block capture carrying a distinct constant on EVERY action for (B, A) over {2,11,12}^2 (thorough: + 24), 13-step branches (__sr10..__sr12), 13 and 24 branches in the thread-spawning kinds (__j10 vs __j1), fold/try_fold captures with operand index 0 and 1 in 12 branches — any clash of generated names makes a binding shadow another and changes a constant / the trace; (b) nesting: EVERY ordered pair of the 12 macros with the inner macro as operand value, inside a block capture and inside a handler (async inner in sync context through a nesting-free block_on, task-spawning inner inside a tokio runtime context); (b3) depth 3: every ordered TRIPLE of the 12 macros, innermost inside the initial operand / a block capture of the middle macro, middle inside an operand / capture / handler of the outer (quick: position pair (capture, operand) for all 1728 triples + all six position pairs over 4 representative middle/inner macros; thorough: all triples x all six pairs; triples in which a tokio task would be spawned from a plain std thread are not programs); oracle: value + trace (per-branch projections) equal the reference applied recursively; every program is distinct and non-trivial by construction (distinct constants, logging callbacks)")
     sample_family(rep, np_, fr2)
 
 
@@ -1020,7 +1020,7 @@ def c19(tier, rep):
     alloc_free = sum(1 for p in ap if "allocation-free=true" in ((fr.results.get(p.id, {}).get("sample") or {}).get("value") or ""))
     rep.set("allocation_programs", len(ap))
     rep.set("allocation_programs_whose_sampled_row_is_allocation_free", alloc_free)
-    tp = fc.tok_programs(tier)
+    tp = fc.tok_programs(tier) + fc.tok_operator_programs()
     fr2 = e2.run_family("c19tok", tp, extra_header=fp.HEADER)
     judge_family(rep, fr2)
     kp = fc.chain_alloc_programs(tier)
@@ -1030,7 +1030,7 @@ def c19(tier, rep):
     rp = fc.rc_programs(tier) + fc.borrow_programs()
     fr3 = e2.run_family("c19bounds", rp, extra_header=fn.NEST_HEADER + fc.RC_PRE)
     judge_family(rep, fr3)
-    rep.set("rule", "exact allocation counts: every typed chain of length <= 2 (captured operands, `~` before none / the last / every operator, open iterator adaptors at step boundaries) allocates exactly as often as the documented method chain; allocation: int-only depth profiles n<=4,d<=3 (plain, capture-rich, wrapper steps; every failure subset for small try programs) in join!/try_join! under a counting global allocator with logging switched off: the macro evaluation is allocation-free exactly when the reference is; bounds: (i) depth profiles over a move-only, non-Clone, drop-logging token in all 12 macros (values, created/dropped counts and dropped-id multiset equal the reference); (ii) Rc values in the four non-spawning macros incl. 10- and 12-action single steps; (iii) & / &mut borrows of caller locals through step closures, wrapper closures, captures, branch values and handlers: the macro must compile wherever the reference does and agree with it (the universal type-level claim is decided for these shapes only)")
+    rep.set("rule", "exact allocation counts: every typed chain of length <= 2 (captured operands, `~` before none / the last / every operator, open iterator adaptors at step boundaries) allocates exactly as often as the documented method chain; allocation: int-only depth profiles n<=4,d<=3 (plain, capture-rich, wrapper steps; every failure subset for small try programs) in join!/try_join! under a counting global allocator with logging switched off: the macro evaluation is allocation-free exactly when the reference is; bounds: (i') every operator that types over a move-only value (11 on Option<Tok>, 8 on Result<Tok, i32>, 11 on Vec<Tok> iterators, two wrappers) as the deferred first operator of a later step / the first operator of step 0 / an instant operator in mid-step in join!, try_join!, join_spawn!, try_join_spawn!: compiles (no Copy / Clone demanded) and agrees with the method chain incl. created / dropped token counts; (i) depth profiles over a move-only, non-Clone, drop-logging token in all 12 macros (values, created/dropped counts and dropped-id multiset equal the reference); (ii) Rc values in the four non-spawning macros incl. 10- and 12-action single steps; (iii) & / &mut borrows of caller locals through step closures, wrapper closures, captures, branch values and handlers: the macro must compile wherever the reference does and agree with it (the universal type-level claim is decided for these shapes only)")
     sample_family(rep, ap, fr)
 
 
